@@ -212,7 +212,7 @@ func concretise(r *rand.Rand, abs []string) string {
 		case "a":
 			sb.WriteByte("hxbz"[r.Intn(4)])
 		case "1":
-			sb.WriteByte("1234567890"[r.Intn(10)])
+			sb.WriteByte("123456789"[r.Intn(9)]) // never 0: "-0" is a valid port while "-5" is not, and the abstract digit cannot tell
 		default:
 			sb.WriteString(c)
 		}
@@ -276,7 +276,7 @@ func TestVerifC16(t *testing.T) {
 		tw.emit(map[string]interface{}{"k": "uri", "scheme": items[i].scheme, "abs": items[i].abs, "in": items[i].s, "o": o})
 	}
 	// (b) native sweep over the property's 20-symbol alphabet (no per-input prediction: summarised per batch)
-	alpha20 := strings.Split("a 1 : [ ] ? = & / # . - + @ % _ ~ ! ; ,", " ")
+	alpha20 := strings.Split("a 1 0 : [ ] ? = & / # . - + @ % _ ~ ! ;", " ")
 	sweepLen := envInt("VERIF_SWEEPLEN", 4)
 	batch := []string{}
 	flush := func(kind string) {
